@@ -114,4 +114,5 @@ def build(ub, algebra_text):
     ub.out(unroll_text)
     base = os.path.dirname(os.path.dirname(os.path.abspath(__file__)))
     ub.emit_raw("lemmas/encoding.rs")
+    ub.pin_rest_of_file(ENC)   # frame: the other functions of the file (DESIGN 11.12)
     ub.out("} // verus!\nfn main() {}\n")
